@@ -699,5 +699,27 @@ ASSUMPTIONS = ["fopen modes (C11 7.21.5.3): r needs the file, w creates/truncate
                "content is NUL-free for the line readers (strlen); files are smaller than 2 GiB (text() masks the size with 0x7fffffff)"]
 TECHNIQUE = ("Lean 4 theorems (induction over byte lists / histories) about an executable model of File, TextFile and Directory::copy/move "
              "whose constants are regenerated from the source + differential correspondence check against the real library on real files")
-LEVEL_TEXT = "filled in below"
-LEVEL_NOTE = "filled in below"
+LEVEL_TEXT = ("Proved in Lean 4 about the executable model the driver runs (AslModel/FileText.lean), for ALL inputs: lines() = split at LF with "
+              "one CR removed before each LF, for every content, every line length, with or without final newline, the empty file, and every "
+              "fgets chunk size >= 2 (lines_spec; 255 is regenerated from the source); each readLine(String&) call returns the next line and "
+              "leaves the stream behind its LF, the last unterminated piece sets EOF (readLine_lf, readLine_last); text() returns a file "
+              "without byte-order mark unchanged, drops the UTF-8 signature, and returns every NUL-free scalar-value sequence behind a "
+              "UTF-16LE/BE mark as its UTF-8 encoding provided it has no adjacent CR LF (text_utf8, text_bom_utf8, text_utf16_partial, via C08's "
+              "utf16_utf8_std), never reading outside its buffers on any bytes (text_total); the full UTF-16 statement is refuted by CR LF "
+              "(text_utf16_crlf_counterexample, known finding); any history of put / TextFile write / append / objects opened in READ, WRITE, "
+              "APPEND, RW mode and written through any number of times leaves exactly the bytes a reference store predicts and touches no "
+              "other path (store_refines), and content/size/firstBytes/read return those bytes (read_back, read_seq, written_is_read); the "
+              "Directory::copy block loop writes exactly the source for every size and block size (copy_exact), copy and move (rename or "
+              "EXDEV copy+remove) leave exactly the source bytes at the destination (copy_preserves, move_preserves, *_refusals). The model's "
+              "constants (chunk, copy block, fopen mode strings, BOM bytes, size mask, UTF-16 byte order) are regenerated from /repo and the "
+              "shape of every transcribed function is re-checked on each run (G); the model is tied to the real library, real files and the "
+              "real libc by the correspondence check (K), and an independent python reference judges lines/text/round trips/copy/move.")
+LEVEL_NOTE = ("Hypotheses (modelled, exercised by K, not verified): stdio and POSIX behave as listed under `assumptions` (fopen modes, fwrite "
+              "delivery by fclose, fgets/fread/feof, stat size, rename/EXDEV/unlink); files are observed after the writer is closed (a still-open "
+              "writer's buffered bytes and its cached size are not an `afterwards` observation); content is NUL-free for the line readers "
+              "(strlen; a NUL makes readLine read s[-1]) and files are < 2 GiB (text() masks the size). Partial: text_utf16_partial excludes "
+              "exactly the texts with an adjacent CR LF (known finding utf16-crlf-fold: deliberate folding in TextFile::text(), "
+              "text_utf16_crlf_counterexample); paths are abstract (4 names in 2 directories: no symlinks/hard links, permissions or disk-full "
+              "errors, so the failing-copy branch of the EXDEV move is in the model but never taken by K); printf/scanf/operator>> of "
+              "TextFile, File::temp, Windows halves are outside the model. Repaired in /repo for this property: copy onto itself truncated "
+              "the file (576b460); cross-device move returned false and removed the source unconditionally (a7085af).")
